@@ -345,6 +345,11 @@ impl<'a, 'c, 'd> G<'a, 'c, 'd> {
                 if let Type::NonNull(inner) = ty {
                     vty = (**inner).clone();
                     need_nonnull_default = !has_default || self.c.coin();
+                    // a nullable LIST variable let in by a default: the item types still only
+                    // have to be compatible (stricter items at every depth are allowed)
+                    if vty.is_list() && self.c.coin() {
+                        vty = strictify(&vty);
+                    }
                 }
             }
         }
